@@ -33,6 +33,16 @@ def scfgOf (j : Json) : Strategy.Cfg :=
   { maxAttempts := gnat j "maxAttempts", initial := gnat j "initial", maxDelay := gnat j "maxDelay",
     rateNum := gnat j "rateNum", rateDen := gnat j "rateDen", jitter := jitterOf (gstr j "jitter") }
 
+def msgFilterOf (j : Json) : Strategy.MsgFilter :=
+  match j.getObjValAs? String "text" with
+  | .ok t => .text t
+  | _ => .pattern (gbool j "hit")
+
+def optArr (j : Json) (k : String) : Option (Array Json) :=
+  match j.getObjVal? k with
+  | .ok (.arr a) => some a
+  | _ => none
+
 def catOf : String → Outcome.Category
   | "EXECUTION" => .execution | _ => .invocation
 def catName : Outcome.Category → String
@@ -79,6 +89,10 @@ def handle (c : String) (j : Json) : Json :=
       ("reason", reasonName (Policy.reason (if noCfg then none else some cfg) f s (s + f) n))]
   | "strategy.retry" =>
     Json.mkObj [("d", optNatJ (Strategy.retryDecision (scfgOf j) (gbool j "retryable") (gnat j "a") (gnat j "jn") (gnat j "jd")))]
+  | "strategy.retryable" =>
+    let fs := (optArr j "filters").map (fun a => a.toList.map msgFilterOf)
+    let ts := (optArr j "types").map (fun a => a.toList.map (fun x => (x.getBool?).toOption.getD false))
+    Json.mkObj [("r", Json.bool (Strategy.retryable fs ts (gstr j "msg")))]
   | "strategy.wait" =>
     Json.mkObj [("d", optNatJ (Strategy.waitDecision (scfgOf j) (gbool j "cont") (gnat j "a") (gnat j "jn") (gnat j "jd")))]
   | "outcome.classify" =>
